@@ -238,3 +238,28 @@ def mgf_everywhere(file, cls):
 for _f, _c in (('bernoulli.py', 'Bernoulli'), ('beta.py', 'Beta'), ('discrete_uniform.py', 'DiscreteUniform'), ('normal.py', 'Normal'),
                ('truncated_normal.py', 'TruncNormal'), ('uniform.py', 'Uniform')):
     mgf_everywhere(_f, _c)
+
+
+@contract(D + 'distribution.py', 'Distribution.__init__', ['C08', 'C19'])
+def distribution_init(cx):
+    """the parameters reach set_parameters in the given order and number; a float literal is replaced by the rational it spells (exact), every
+    other parameter is passed on unchanged"""
+    ISFLOAT = z3.Function('is_Float', R, B); RAT = z3.Function('float_to_rational', R, R)
+    ps = cx.seq('parameters', DR)
+    cx.param(self=cx.obj('Distribution'), parameters=ps)
+    cx.call('sympify', lambda ex, st, r, a, kw: VR(toreal(a[0])))
+    cx.attr('is_Float', lambda ex, st, o: VB(ISFLOAT(toreal(o))))
+    cx.call('float_to_rational', lambda ex, st, r, a, kw: VR(RAT(toreal(a[0]))), trusted='float_to_rational: Rational(str(float)), the rational the literal spells (C19 bounded)')
+    cx.set_hook('empty_kinds', {'params': DSeq(DR)})
+    j = z3.Int('j')
+    conv = lambda q: z3.If(ISFLOAT(ps.t[q]), RAT(ps.t[q]), ps.t[q])
+    cx.invariant(0, lambda st: z3.And(z3.Length(st['params'].t) == st['$i0'].t, z3.ForAll([j], z3.Implies(z3.And(0 <= j, j < st['$i0'].t), st['params'].t[j] == conv(j)))))
+    cx.st.vars['$passed'] = V('none')
+
+    def set_parameters(ex, st, r, a, kw):
+        v = a[0]
+        ex.need(st, z3.And(z3.Length(v.t) == z3.Length(ps.t), z3.ForAll([j], z3.Implies(z3.And(0 <= j, j < z3.Length(ps.t)), v.t[j] == conv(j)))), 'set_parameters.receives-converted-parameters@0', 'ensures')
+        return VNone()
+    cx.call('set_parameters', set_parameters)
+    cx.call('super', lambda ex, st, r, a, kw: V('opaque')); cx.call('__init__', lambda ex, st, r, a, kw: VNone())
+    cx.ensures(lambda st, r: z3.BoolVal(True))
